@@ -24,6 +24,20 @@ def run(chk):
                 c = rc.str_case(2, edges, prov, g, "unres")
                 c["ops"] = [o for o in c["ops"] if not (o["op"] == "loadstr" and o["str"] == 0 and o["version"] == 0)] + [{"op": "loadstr", "str": 0, "version": 1}]
                 cases.append(c)
+    # several registered languages, each metamodel with its own global repository or none: every digraph on 2 files of
+    # different languages (3 files in 2 languages in the thorough tier); earlier direct load of the imported file
+    for globs in ([True, True], [False, True], [True, False]):
+        for edges in rc.all_graphs(2):
+            cases.append(rc.ml_case(2, edges, [0, 1], globs, provider=rc.PROVIDERS[len(cases) % 2]))
+    for k, edges in enumerate(rc.all_graphs(3, self_edges=False)):
+        if chk.thorough or k % 8 == 3:
+            cases.append(rc.ml_case(3, edges, [0, 1, 0] if k % 2 else [0, 0, 1], [True, True] if k % 3 else [True, False], provider=rc.PROVIDERS[k % 2]))
+    # search-path providers: cycles through the main model, no global repository (and with one)
+    for g in (False, True):
+        for edges in rc.all_graphs(2):
+            c = rc.graph_case(2, edges, rc.PROVIDERS[len(cases) % 2], g)
+            c["search_path"] = ["."]
+            cases.append(c)
     n = 1500 if chk.thorough else 200
     for i in range(n):
         r = chk.rng.split(i)
